@@ -1,1 +1,729 @@
 //! Kani harnesses compiled as a child module of rustzx-core/src/emulator/fastload/tap.rs (cfg(kani) only).
+//! Property C10: fast tape loading leaves the machine exactly as the ROM's LD-BYTES would.
+#![allow(dead_code)]
+use super::*;
+use crate::emulator::verif_hooks as emu;
+use crate::host::{BufferCursor, Tape};
+use crate::verif_hooks::{FbCtx, VBuf, VHost};
+use crate::zx::controller::verif_hooks as ctl;
+use crate::zx::machine::ZXMachine;
+use rustzx_z80::RegName16 as R16;
+
+const CTX: FbCtx = FbCtx { wx: 0, wy: 0 };
+/// LD-BREAK in the 48K ROM: `RET NZ` after `CP A`, entered once per LD-BYTES call before the first
+/// edge is looked for; A'F' hold the expected flag byte and the LOAD/VERIFY carry since `EX AF,AF'`
+const S_LD_BREAK: u16 = 0x056B;
+const S_FLAG_C: u8 = 0x01;
+const S_FLAG_Z: u8 = 0x40;
+
+// ---- specification: what LD-BYTES (48K ROM 0x0556..0x05E2) leaves behind --------------------------
+//
+//   LD-BYTES  INC D / EX AF,AF' / DEC D ...      A' = flag byte, F'.C = LOAD(1)/VERIFY(0), F'.Z = 0
+//   LD-BREAK  RET NZ                             <- trap point
+//   ... pilot, sync ...  LD H,0                  parity := 0
+//   LD-MARKER/LD-8-BITS  read 8 bits into L      time-out (RET NC: carry reset) when the tape is silent
+//             LD A,H / XOR L / LD H,A            parity ^= byte
+//             LD A,D / OR E / JR NZ,LD-LOOP      DE = 0: this byte was the parity byte ->
+//             LD A,H / CP 1 / RET                carry set iff parity = 0
+//   LD-LOOP   EX AF,AF' / JR NZ,LD-FLAG          Z reset: flag byte not seen yet
+//             JR NC,LD-VERIFY
+//             LD (IX+0),L / JR LD-NEXT           LOAD: store
+//   LD-FLAG   RL C / XOR L / RET NZ              flag mismatch: return, carry reset by XOR
+//             ... INC DE / JR LD-DEC             flag matched (Z now set); DE unchanged
+//   LD-VERIFY LD A,(IX+0) / XOR L / RET NZ       VERIFY mismatch: return, carry reset
+//   LD-NEXT   INC IX
+//   LD-DEC    DEC DE / EX AF,AF' / ... LD-MARKER
+//
+// The model works on the bytes of one TAP block; "tape silent" = block exhausted (the pause
+// after a block is far longer than the edge time-out).
+#[derive(Clone, Copy)]
+struct LdOut {
+    ix: u16,
+    de: u16,
+    carry: bool,
+    stores: [(u16, u8); 6],
+    nstores: usize,
+}
+
+/// `pre[k]` = memory at IX+k before the call (what VERIFY compares with)
+fn ld_bytes_model(a: u8, f: u8, ix0: u16, de0: u16, block: &[u8], pre: &[u8; 6]) -> LdOut {
+    let mut o = LdOut { ix: ix0, de: de0, carry: false, stores: [(0, 0); 6], nstores: 0 };
+    let mut flag_seen = f & S_FLAG_Z != 0;
+    let load = f & S_FLAG_C != 0;
+    let mut parity = 0u8;
+    let mut i = 0;
+    loop {
+        if i >= block.len() {
+            // silent tape: LD-EDGE times out, RET NC
+            o.carry = false;
+            return o;
+        }
+        let l = block[i];
+        i += 1;
+        parity ^= l;
+        if o.de == 0 {
+            o.carry = parity == 0;
+            return o;
+        }
+        if !flag_seen {
+            if a != l {
+                o.carry = false;
+                return o;
+            }
+            flag_seen = true;
+        } else {
+            if load {
+                o.stores[o.nstores] = (o.ix, l);
+                o.nstores += 1;
+            } else if pre[o.ix.wrapping_sub(ix0) as usize] != l {
+                o.carry = false;
+                return o;
+            }
+            o.ix = o.ix.wrapping_add(1);
+            o.de -= 1;
+        }
+    }
+}
+
+/// memory at `w` after the model's stores (stores into ROM, i.e. below 0x4000, have no effect)
+fn model_mem_after(o: &LdOut, w: u16, before: u8) -> u8 {
+    let mut v = before;
+    let mut k = 0;
+    while k < o.nstores {
+        if o.stores[k].0 == w && w >= 0x4000 {
+            v = o.stores[k].1;
+        }
+        k += 1;
+    }
+    v
+}
+
+// ---- harness plumbing -------------------------------------------------------------------------
+
+/// TAP image with the given block lengths (concrete structure, arbitrary contents)
+fn image(layout: &[usize]) -> VBuf {
+    let mut b = VBuf { data: kani::any(), len: 0 };
+    let mut off = 0;
+    let mut i = 0;
+    while i < layout.len() {
+        b.data[off] = layout[i] as u8;
+        b.data[off + 1] = 0;
+        off += 2 + layout[i];
+        i += 1;
+    }
+    b.len = off;
+    b
+}
+
+fn emulator_with_tape(m: ZXMachine, buf: VBuf) -> Emulator<VHost> {
+    let mut e = emu::mk_emulator(m, CTX);
+    let r = e.load_tape(Tape::Tap(BufferCursor::new(buf)));
+    kani::assert(r.is_ok(), "c10.load_tape_ok");
+    e
+}
+
+#[derive(Clone, Copy, PartialEq, Eq)]
+struct CpuView {
+    af: u16,
+    af_alt: u16,
+    pc: u16,
+    sp: u16,
+    ix: u16,
+    de: u16,
+}
+
+fn cpu_view(e: &mut Emulator<VHost>) -> CpuView {
+    let r = &mut emu::cpu(e).regs;
+    let af = r.get_af();
+    r.swap_af_alt();
+    let af_alt = r.get_af();
+    r.swap_af_alt();
+    CpuView {
+        af,
+        af_alt,
+        pc: r.get_pc(),
+        sp: r.get_sp(),
+        ix: r.get_reg_16(R16::IX),
+        de: r.get_reg_16(R16::DE),
+    }
+}
+
+const SP0: u16 = 0xFF50;
+
+/// CPU at the trap point of an LD-BYTES call: PC = LD-BREAK, AF = anything (the ROM has Z set
+/// here), A'F' = request, IX/DE = request, return address of the call chain on the stack.
+fn at_trap(e: &mut Emulator<VHost>, af: u16, a_req: u8, f_req: u8, ix: u16, de: u16, ret: u16) {
+    {
+        let r = &mut emu::cpu(e).regs;
+        r.set_acc(a_req);
+        r.set_flags(f_req);
+        r.swap_af_alt();
+        r.set_af(af);
+        r.set_pc(S_LD_BREAK);
+        r.set_sp(SP0);
+        r.set_reg_16(R16::IX, ix);
+        r.set_reg_16(R16::DE, de);
+    }
+    let [lo, hi] = ret.to_le_bytes();
+    emu::controller(e).memory.force_write(SP0, lo);
+    emu::controller(e).memory.force_write(SP0.wrapping_add(1), hi);
+}
+
+/// One LD-BYTES request against the next block of the tape (image[off+2 .. off+2+n]) compared
+/// with the model.
+///
+/// Cost notes (measured): one access to the 48K RAM vector at a symbolic address costs about
+/// 2 M clauses / 40 s.  `ix` is therefore concrete, memory is compared at the concrete addresses
+/// IX-1 ..= IX+6 (plus one optional symbolic witness), and `f_req` is passed as a constant where
+/// possible: with symbolic F' the destination pointer of the second and later loop rounds is
+/// a symbolic choice (flag byte consumed or not) and every store becomes a symbolic one.
+fn request_case(
+    e: &mut Emulator<VHost>,
+    buf: &VBuf,
+    off: usize,
+    n: usize,
+    ix: u16,
+    f_req: u8,
+    witness: Option<u16>,
+) -> (LdOut, u16) {
+    let a_req: u8 = kani::any();
+    let de: u16 = kani::any();
+    kani::assume(de <= 5);
+    request_with(e, buf, off, n, ix, f_req, a_req, de, witness)
+}
+
+/// `request_case` with the expected flag byte and the length chosen by the caller.  With
+/// concrete `f_req`/`de` and Z' set the number of bytes the request takes from the tape is
+/// concrete, which keeps the stream position concrete for a following request (a symbolic
+/// position makes the refill path of `next_block_byte`, a symbolic-size memcpy, look reachable).
+fn request_with(
+    e: &mut Emulator<VHost>,
+    buf: &VBuf,
+    off: usize,
+    n: usize,
+    ix: u16,
+    f_req: u8,
+    a_req: u8,
+    de: u16,
+    witness: Option<u16>,
+) -> (LdOut, u16) {
+    let af: u16 = kani::any();
+    let ret: u16 = kani::any();
+    at_trap(e, af, a_req, f_req, ix, de, ret);
+    // arbitrary memory contents where the request points (VERIFY compares with them);
+    // mem[k] = contents of IX-1+k
+    let mut mem = [0u8; 8];
+    let mut k = 0;
+    while k < 8 {
+        mem[k] = kani::any();
+        emu::controller(e).memory.force_write(ix.wrapping_add(k as u16).wrapping_sub(1), mem[k]);
+        k += 1;
+    }
+    let pre = [mem[1], mem[2], mem[3], mem[4], mem[5], mem[6]];
+    let before_w = match witness {
+        Some(w) => e.peek(w),
+        None => 0,
+    };
+    let r = emu::fast_load_event(e);
+    kani::assert(r.is_ok(), "c10.ld.ok");
+    let o = ld_bytes_model(a_req, f_req, ix, de, &buf.data[off + 2..off + 2 + n], &pre);
+    let v = cpu_view(e);
+    kani::assert(v.ix == o.ix, "c10.ld.ix");
+    kani::assert(v.de == o.de, "c10.ld.de");
+    kani::assert((v.af as u8 & S_FLAG_C != 0) == o.carry, "c10.ld.carry_success_flag");
+    let mut k = 0;
+    while k < 8 {
+        let addr = ix.wrapping_add(k as u16).wrapping_sub(1);
+        kani::assert(e.peek(addr) == model_mem_after(&o, addr, mem[k]), "c10.ld.memory");
+        k += 1;
+    }
+    if let Some(w) = witness {
+        kani::assert(e.peek(w) == model_mem_after(&o, w, before_w), "c10.ld.memory_elsewhere");
+    }
+    // the routine has returned to its caller (the ROM leaves through RET)
+    kani::assert(v.pc == ret && v.sp == SP0.wrapping_add(2), "c10.ld.returned_to_caller");
+    (o, de)
+}
+
+fn one_block_case(m: ZXMachine, n: usize, ix: u16, f_req: u8) -> (LdOut, u16) {
+    let buf = image(&[n]);
+    let mut e = emulator_with_tape(m, buf);
+    request_case(&mut e, &buf, 0, n, ix, f_req, None)
+}
+
+const K48: ZXMachine = ZXMachine::Sinclair48K;
+const K128: ZXMachine = ZXMachine::Sinclair128K;
+
+// @harness
+// @prop C10
+// @tier quick
+// @kani_args --no-assertion-reach-checks
+// @timeout 600
+// @fn fast_load_tap; Emulator::process_fast_load_event; Emulator::load_tape; Tap::from_asset; Tap::next_block; Tap::next_block_byte; Tap::can_fast_load; BufferCursor::read; ZXController::write_internal; ZXMemory::read; ZXMemory::write; Z80::pop_pc_from_stack
+// @sym 48K machine; tape = one block of 0, 1, 2, 3 or 4 arbitrary bytes; LOAD request (F' = carry set, Z reset): A' (expected flag byte), DE in 0..=5, AF, return address and the memory at IX-1..IX+6 arbitrary; IX = 0x8000
+// @assert after the fast-load event IX, DE, the carry flag and memory at IX-1..IX+6 equal the LD-BYTES model run on the block: first byte compared with A', following bytes stored in order with IX++/DE--, the byte after the last requested one taken as parity, carry set iff the flag matched and the XOR of all bytes read is 0; carry reset on flag mismatch and when the block is too short (incl. the empty block); the routine returns to the caller's return address
+// @bound blocks of 0..=4 bytes x requests of 0..=5 bytes (shorter than, equal to, longer than the block); one concrete IX; F' bits other than C and Z are 0 (c10_loader_any_flags); unwind 9
+// @outside agreement of the model with the ROM binary; blocks longer than 4 bytes (the loop is length-independent given the byte stream shown in c10_stream_*)
+#[kani::proof]
+#[kani::unwind(9)]
+fn c10_loader_load() {
+    let (o, de) = one_block_case(K48, 0, 0x8000, S_FLAG_C);
+    kani::cover!(!o.carry && de == 0 && o.ix == 0x8000, "empty block: nothing loaded, no success");
+    let (o, de) = one_block_case(K48, 1, 0x8000, S_FLAG_C);
+    kani::cover!(o.carry && de == 0, "DE = 0: first byte is taken as the parity byte");
+    let (o, de) = one_block_case(K48, 2, 0x8000, S_FLAG_C);
+    kani::cover!(o.carry && de == 0, "2-byte block, nothing requested");
+    kani::cover!(!o.carry && de == 1 && o.nstores == 1, "block one byte short: data stored, no parity byte");
+    let (o, de) = one_block_case(K48, 3, 0x8000, S_FLAG_C);
+    kani::cover!(o.carry && de == 1 && o.nstores == 1, "successful LOAD of 1 byte");
+    kani::cover!(!o.carry && de == 1 && o.de == 0, "parity error");
+    kani::cover!(!o.carry && de == 1 && o.de == 1, "flag mismatch");
+    kani::cover!(!o.carry && de == 5 && o.de == 3, "block too short");
+    let (o, de) = one_block_case(K48, 4, 0x8000, S_FLAG_C);
+    kani::cover!(o.carry && de == 2 && o.nstores == 2, "successful LOAD of 2 bytes");
+    kani::cover!(o.carry && de == 1 && o.nstores == 1, "block longer than requested: rest ignored");
+}
+
+// @harness
+// @prop C10
+// @tier quick
+// @kani_args --no-assertion-reach-checks
+// @timeout 600
+// @fn fast_load_tap; Emulator::process_fast_load_event; Tap::next_block; Tap::next_block_byte; ZXMemory::read; Z80::pop_pc_from_stack
+// @sym as c10_loader_load, VERIFY request (F' = carry reset, Z reset)
+// @assert as c10_loader_load with bytes compared with memory instead of stored: memory unchanged, carry reset and IX/DE left at the first differing byte
+// @bound as c10_loader_load
+#[kani::proof]
+#[kani::unwind(9)]
+fn c10_loader_verify() {
+    let (o, _de) = one_block_case(K48, 0, 0x8000, 0);
+    kani::cover!(!o.carry, "empty block");
+    let (o, de) = one_block_case(K48, 1, 0x8000, 0);
+    kani::cover!(!o.carry && de == 1 && o.de == 1, "only a flag byte");
+    let (o, de) = one_block_case(K48, 2, 0x8000, 0);
+    kani::cover!(o.carry && de == 0, "nothing requested");
+    let (o, de) = one_block_case(K48, 3, 0x8000, 0);
+    kani::cover!(o.carry && de == 1, "successful VERIFY of 1 byte");
+    kani::cover!(!o.carry && de == 1 && o.de == 1 && o.ix == 0x8000, "VERIFY mismatch at the first byte (or wrong flag)");
+    let (o, de) = one_block_case(K48, 4, 0x8000, 0);
+    kani::cover!(o.carry && de == 2 && o.ix == 0x8002, "successful VERIFY of 2 bytes");
+    kani::cover!(!o.carry && de == 2 && o.de == 1 && o.ix == 0x8001, "VERIFY mismatch at the second byte");
+    kani::cover!(o.nstores == 0, "VERIFY never stores");
+}
+
+// @harness
+// @prop C10
+// @tier quick
+// @kani_args --no-assertion-reach-checks
+// @timeout 600
+// @fn fast_load_tap; Emulator::process_fast_load_event; Tap::next_block; Tap::next_block_byte; ZXController::write_internal; ZXMemory::read; ZXMemory::write
+// @sym as c10_loader_load, with Z' set at the trap point (LD-BYTES entered with D = 0xFF makes INC D set Z: the ROM then treats the flag byte as data), LOAD and VERIFY
+// @assert as c10_loader_load: no flag comparison, the first byte is already stored / compared
+// @bound blocks of 1..=3 bytes; unwind 9
+#[kani::proof]
+#[kani::unwind(9)]
+fn c10_loader_flag_already_matched() {
+    let (o, de) = one_block_case(K48, 1, 0x8000, S_FLAG_Z | S_FLAG_C);
+    kani::cover!(!o.carry && de == 1 && o.nstores == 1, "single byte stored, then tape silent");
+    let (o, de) = one_block_case(K48, 3, 0x8000, S_FLAG_Z | S_FLAG_C);
+    kani::cover!(o.carry && de == 2 && o.nstores == 2, "flag byte loaded as data");
+    let (o, de) = one_block_case(K48, 3, 0x8000, S_FLAG_Z);
+    kani::cover!(o.carry && de == 2 && o.ix == 0x8002, "flag byte verified as data");
+    let (o, de) = one_block_case(K48, 2, 0x8000, S_FLAG_Z);
+    kani::cover!(!o.carry && de == 2 && o.de == 1, "VERIFY, block too short");
+}
+
+// @harness
+// @prop C10
+// @tier quick
+// @kani_args --no-assertion-reach-checks
+// @timeout 900
+// @fn fast_load_tap; Emulator::process_fast_load_event; Tap::next_block; Tap::next_block_byte; ZXController::write_internal; ZXMemory::read; ZXMemory::write
+// @sym 48K machine; block of 1 or 2 arbitrary bytes; A' and ALL 8 bits of F' arbitrary, DE in 0..=5, IX = 0x8000
+// @assert as c10_loader_load: only the carry (LOAD/VERIFY) and zero (flag matched) bits of F' matter
+// @bound blocks of 1 and 2 bytes (with symbolic F' every further loop round adds a store at a symbolic address, ~40 s each); unwind 9
+#[kani::proof]
+#[kani::unwind(9)]
+fn c10_loader_any_flags() {
+    let f: u8 = kani::any();
+    let (o, de) = one_block_case(K48, 1, 0x8000, f);
+    kani::cover!(o.carry && de == 0 && f == 0xBE, "odd flag bits, DE = 0");
+    let f: u8 = kani::any();
+    let (o, de) = one_block_case(K48, 2, 0x8000, f);
+    kani::cover!(!o.carry && de == 5 && f == 0xFF && o.nstores == 2, "all flag bits set: LOAD without flag check, runs out of tape");
+    kani::cover!(o.carry && de == 0 && f & S_FLAG_Z == 0, "DE = 0");
+}
+
+// @harness
+// @prop C10
+// @tier quick
+// @kani_args --no-assertion-reach-checks
+// @timeout 900
+// @fn fast_load_tap; Emulator::process_fast_load_event; ZXController::write_internal; ZXMemory::read; ZXMemory::write; Z80::pop_pc_from_stack
+// @sym 48K machine: LOAD and VERIFY of a 4-byte block (requests of 0..=5 bytes) at destinations that straddle the memory map: IX = 0x3FFF (last ROM byte, then RAM), 0x7FFF (page boundary), 0xFFFF (wraps to ROM address 0x0000), 0x5AFF (end of the screen attributes)
+// @assert as c10_loader_load; stores into ROM addresses have no effect (as LD (IX+0),L on the real machine), IX wraps modulo 64K
+// @bound the listed destinations; unwind 9
+#[kani::proof]
+#[kani::unwind(9)]
+fn c10_loader_addresses_48k() {
+    let (o, de) = one_block_case(K48, 4, 0x3FFF, S_FLAG_C);
+    kani::cover!(o.carry && de == 2 && o.nstores == 2, "LOAD across the ROM/RAM boundary");
+    let (o, de) = one_block_case(K48, 4, 0x3FFF, 0);
+    kani::cover!(o.carry && de == 2, "VERIFY against ROM then RAM");
+    let (o, de) = one_block_case(K48, 4, 0x7FFF, S_FLAG_C);
+    kani::cover!(o.carry && de == 2, "LOAD across a page boundary");
+    let (o, de) = one_block_case(K48, 4, 0xFFFF, S_FLAG_C);
+    kani::cover!(o.carry && de == 2 && o.ix == 0x0001, "LOAD wrapping from 0xFFFF to 0x0000");
+    let (o, de) = one_block_case(K48, 4, 0x5AFF, S_FLAG_C);
+    kani::cover!(o.carry && de == 2, "LOAD across the end of the attribute area");
+}
+
+// @harness
+// @prop C10
+// @tier quick
+// @kani_args --no-assertion-reach-checks
+// @timeout 900
+// @fn fast_load_tap; Emulator::process_fast_load_event; ZXController::write_internal; ZXMemory::read; ZXMemory::write; Z80::pop_pc_from_stack
+// @sym 128K machine (reset paging: ROM 0, bank 5, bank 2, bank 0): LOAD of a 4-byte block at IX = 0xBFFF (fixed bank 2 into paged bank 0), VERIFY at IX = 0xFFFF (wraps into ROM)
+// @assert as c10_loader_load
+// @bound the listed destinations; unwind 9
+#[kani::proof]
+#[kani::unwind(9)]
+fn c10_loader_addresses_128k() {
+    let (o, de) = one_block_case(K128, 4, 0xBFFF, S_FLAG_C);
+    kani::cover!(o.carry && de == 2, "128K: LOAD from bank 2 into bank 0");
+    let (o, de) = one_block_case(K128, 4, 0xFFFF, 0);
+    kani::cover!(o.carry && de == 2, "128K: VERIFY wrapping into ROM");
+}
+
+// @harness
+// @prop C10
+// @tier quick
+// @kani_args --no-assertion-reach-checks
+// @timeout 900
+// @fn fast_load_tap; Emulator::process_fast_load_event; ZXController::write_internal; ZXMemory::write
+// @sym LOAD of a 4-byte block, DE in 0..=5, IX = 0x8000, one witness address w anywhere in the 64K
+// @assert memory at w after the request is what the model says: untouched unless w is one of the stored-to addresses
+// @bound one symbolic witness (two symbolic reads of the RAM vector); unwind 9
+#[kani::proof]
+#[kani::unwind(9)]
+fn c10_loader_memory_elsewhere() {
+    let buf = image(&[4]);
+    let mut e = emulator_with_tape(K48, buf);
+    let w: u16 = kani::any();
+    let (o, de) = request_case(&mut e, &buf, 0, 4, 0x8000, S_FLAG_C, Some(w));
+    kani::cover!(o.carry && de == 2 && w == 0x8001, "witness on a loaded byte");
+    kani::cover!(o.carry && de == 2 && w == 0x4000, "witness in the screen");
+    kani::cover!(o.carry && de == 2 && w == 0x1234, "witness in ROM");
+}
+
+// @harness
+// @prop C10
+// @tier quick
+// @kani_args --no-assertion-reach-checks
+// @timeout 900
+// @fn fast_load_tap; Emulator::process_fast_load_event; Tap::next_block (skips the rest of the previous block); Tap::next_block_byte; BufferCursor::read
+// @sym tape of two blocks (4 bytes, then 3 bytes), contents arbitrary; first request one of: (i) LOAD of 1 byte with Z' set (takes 2 of the 4 bytes), (ii) LOAD of 5 bytes with Z' set (more than the block holds), (iii) VERIFY of 0 bytes (takes 1 byte); second request a LOAD with arbitrary A', DE in 0..=5
+// @assert every request consumes exactly the next block: the first request is answered from block 1 whether it reads less than, all of, or tries to read more than the block, the second one from block 2 (the unread rest of block 1 is skipped, nothing of block 2 is lost), each exactly as the model says
+// @bound two blocks, three shapes of the first request (its length is concrete so that the stream position stays concrete, see request_with); unwind 9
+#[kani::proof]
+#[kani::unwind(9)]
+fn c10_consecutive_requests() {
+    let buf = image(&[4, 3]);
+    let mut e = emulator_with_tape(K48, buf);
+    let (o1, _) = request_with(&mut e, &buf, 0, 4, 0x8000, S_FLAG_C | S_FLAG_Z, kani::any(), 1, None);
+    let (o2, de2) = request_case(&mut e, &buf, 6, 3, 0x9000, S_FLAG_C, None);
+    kani::cover!(o1.nstores == 1 && o2.carry && de2 == 1, "short first request, block 2 loaded");
+    let mut e = emulator_with_tape(K48, buf);
+    let (o1, _) = request_with(&mut e, &buf, 0, 4, 0x8000, S_FLAG_C | S_FLAG_Z, kani::any(), 5, None);
+    let (o2, de2) = request_case(&mut e, &buf, 6, 3, 0x9000, S_FLAG_C, None);
+    kani::cover!(!o1.carry && o1.nstores == 4 && o2.carry && de2 == 1, "first request ran out of block 1, block 2 still complete");
+    let mut e = emulator_with_tape(K48, buf);
+    let (_o1, _) = request_with(&mut e, &buf, 0, 4, 0x8000, 0, kani::any(), 0, None);
+    let (o2, de2) = request_case(&mut e, &buf, 6, 3, 0x9000, S_FLAG_C, None);
+    kani::cover!(o2.carry && de2 == 1, "one-byte first request, block 2 loaded");
+}
+
+/// Request on a tape with no block left; returns (before, after) CPU views.
+fn no_block_case(layout: &[usize], consume: usize, extra: usize) -> (CpuView, CpuView, u8, u8) {
+    let mut buf = image(layout);
+    buf.len += extra;
+    let mut e = emulator_with_tape(K48, buf);
+    // use up the blocks with ordinary requests that read them to the end
+    let mut i = 0;
+    let mut off = 0;
+    while i < consume {
+        let _ = request_with(&mut e, &buf, off, layout[i], 0x8000, S_FLAG_C | S_FLAG_Z, kani::any(), 5, None);
+        off += 2 + layout[i];
+        i += 1;
+    }
+    let af: u16 = kani::any();
+    let (a_req, f_req): (u8, u8) = (kani::any(), kani::any());
+    let ix: u16 = kani::any();
+    let de: u16 = kani::any();
+    at_trap(&mut e, af, a_req, f_req, ix, de, kani::any());
+    let m0 = e.peek(0x8000);
+    let s0 = e.peek(SP0);
+    let before = cpu_view(&mut e);
+    let r = emu::fast_load_event(&mut e);
+    kani::assert(r.is_ok(), "c10.end.ok");
+    let after = cpu_view(&mut e);
+    kani::assert(e.peek(0x8000) == m0 && e.peek(SP0) == s0, "c10.end.memory_untouched");
+    (before, after, a_req, f_req)
+}
+
+fn undisturbed_except_af(b: &CpuView, a: &CpuView) -> bool {
+    a.pc == S_LD_BREAK && a.pc == b.pc && a.sp == b.sp && a.ix == b.ix && a.de == b.de
+}
+
+// @harness
+// @prop C10
+// @tier quick
+// @kani_args --no-assertion-reach-checks
+// @timeout 900
+// @fn fast_load_tap; Emulator::process_fast_load_event; Tap::next_block; Tap::can_fast_load
+// @sym (a) empty tape image, (b) one-block tape whose block has been consumed by a previous request, (c) the same with a stray byte after the block; request registers AF, A'F', IX, DE all arbitrary
+// @assert when no block is left the request does not complete: PC stays at LD-BREAK (no return to the caller is faked), SP, IX and DE are untouched and memory is not written - the ROM keeps waiting for an edge as with a silent tape
+// @bound three end-of-tape situations; unwind 9
+// @assume AF and AF' are compared in c10_no_block_left_kf_flags only (known finding KF-C10-1: they come back exchanged)
+#[kani::proof]
+#[kani::unwind(9)]
+fn c10_no_block_left() {
+    let (b, a, _, _) = no_block_case(&[], 0, 0);
+    kani::assert(undisturbed_except_af(&b, &a), "c10.end.cpu_state_not_disturbed");
+    kani::cover!(a.ix == 0x1234 && a.de == 0xFFFF, "arbitrary request, empty tape");
+    let (b, a, _, _) = no_block_case(&[2], 1, 0);
+    kani::assert(undisturbed_except_af(&b, &a), "c10.end.cpu_state_not_disturbed");
+    kani::cover!(a.de == 17, "after the last block");
+    let (b, a, _, _) = no_block_case(&[2], 1, 1);
+    kani::assert(undisturbed_except_af(&b, &a), "c10.end.cpu_state_not_disturbed");
+    kani::cover!(a.de == 18, "stray byte after the last block");
+}
+
+// @harness
+// @prop C10
+// @tier quick
+// @kani_args --no-assertion-reach-checks
+// @expect pass
+// @timeout 900
+// @fn fast_load_tap; Emulator::process_fast_load_event; Tap::next_block
+// @sym empty tape; request registers arbitrary, AF as the ROM has it at LD-BREAK (Z set by CP A), A'F' = a LOAD request (Z reset, carry set)
+// @assert AF and AF' are untouched when no block is left, so that the ROM's `RET NZ` at LD-BREAK is not taken (region of a defect that has been fixed in /repo; formerly: fast_load_tap returns after swap_af_alt without swapping back; RET NZ then sees the request's flags - Z reset - and returns to the caller with the LOAD carry still set: the request "succeeds" without any data)
+// @bound one situation; unwind 9
+#[kani::proof]
+#[kani::unwind(9)]
+fn c10_no_block_left_kf_flags() {
+    let (b, a, _a_req, f_req) = no_block_case(&[], 0, 0);
+    kani::assume(b.af as u8 & S_FLAG_Z != 0 && f_req & S_FLAG_Z == 0 && f_req & S_FLAG_C != 0);
+    kani::assert(a.af as u8 & S_FLAG_Z != 0, "c10.end.ret_nz_not_taken_no_fake_success");
+    kani::assert(a.af == b.af && a.af_alt == b.af_alt, "c10.end.af_and_af_alt_not_disturbed");
+    kani::cover!(true, "end");
+}
+
+// @harness
+// @prop C10
+// @tier quick
+// @kani_args --no-assertion-reach-checks
+// @timeout 900
+// @fn Emulator::process_fast_load_event; Emulator::set_fast_load; Emulator::play_tape; Tap::can_fast_load; Empty::can_fast_load
+// @sym one-block tape (3 bytes); request registers arbitrary; three situations: fast loading switched off, tape playing (play_tape called), no tape inserted (Empty)
+// @assert the fast-load event does nothing unless fast loading is enabled AND the tape is stopped: AF, AF', PC, SP, IX, DE unchanged, and the tape has not moved (a later request with fast loading enabled / the tape stopped again still gets block 1)
+// @bound the three situations; unwind 9
+#[kani::proof]
+#[kani::unwind(9)]
+fn c10_event_gating() {
+    let buf = image(&[3]);
+    // fast loading disabled
+    let mut e = emulator_with_tape(K48, buf);
+    e.set_fast_load(false);
+    at_trap(&mut e, kani::any(), kani::any(), kani::any(), kani::any(), kani::any(), kani::any());
+    let b = cpu_view(&mut e);
+    let r = emu::fast_load_event(&mut e);
+    kani::assert(r.is_ok() && cpu_view(&mut e) == b, "c10.gate.disabled_does_nothing");
+    e.set_fast_load(true);
+    let (o, de) = request_case(&mut e, &buf, 0, 3, 0x8000, S_FLAG_C, None);
+    kani::cover!(o.carry && de == 1, "block 1 still there after the ignored event");
+    // tape playing
+    let mut e = emulator_with_tape(K48, buf);
+    e.play_tape();
+    at_trap(&mut e, kani::any(), kani::any(), kani::any(), kani::any(), kani::any(), kani::any());
+    let b = cpu_view(&mut e);
+    let r = emu::fast_load_event(&mut e);
+    kani::assert(r.is_ok() && cpu_view(&mut e) == b, "c10.gate.playing_tape_does_nothing");
+    e.stop_tape();
+    let (o, de) = request_case(&mut e, &buf, 0, 3, 0x8000, S_FLAG_C, None);
+    kani::cover!(o.carry && de == 1, "block 1 still there after stop");
+    // no tape
+    let mut e = emu::mk_emulator(K48, CTX);
+    at_trap(&mut e, kani::any(), kani::any(), kani::any(), kani::any(), kani::any(), kani::any());
+    let b = cpu_view(&mut e);
+    let r = emu::fast_load_event(&mut e);
+    kani::assert(r.is_ok() && cpu_view(&mut e) == b, "c10.gate.no_tape_does_nothing");
+}
+
+// @harness
+// @prop C10
+// @tier quick
+// @kani_args --no-assertion-reach-checks
+// @timeout 600
+// @fn ZXController::pc_callback; ZXController::write_7ffd; ZXMemory::get_bank_type; ZXMemory::remap
+// @sym machine (48K / 128K), two arbitrary writes to port 7FFD (so any ROM selection, RAM bank, screen and lock bit history), PC value reported by the CPU (any)
+// @assert the fast-load trigger event is raised iff PC = 0x056B (LD-BREAK) and the ROM mapped at 0x0000 is the 48K BASIC ROM: always on the 48K machine, on the 128K machine iff bit 4 of the last accepted 7FFD write is set (a write is accepted unless an earlier one set the lock bit 5); no breakpoint event without a debugger
+// @bound two latch writes; no loops
+#[kani::proof]
+fn c10_trap_condition() {
+    trap_case(K48);
+    trap_case(K128);
+}
+
+fn trap_case(m: ZXMachine) {
+    use rustzx_z80::Z80Bus;
+    let mut c = ctl::mk_controller(m, CTX, false, false);
+    let (v1, v2): (u8, u8) = (kani::any(), kani::any());
+    c.write_7ffd(v1);
+    c.write_7ffd(v2);
+    // specification of the 128K latch
+    let latch = if v1 & 0x20 != 0 { v1 } else { v2 };
+    let basic_rom = match m {
+        ZXMachine::Sinclair48K => true,
+        ZXMachine::Sinclair128K => latch & 0x10 != 0,
+    };
+    let pc: u16 = kani::any();
+    kani::assert(ctl::events_bits(&c) == 0, "c10.trap.no_event_before");
+    c.pc_callback(pc);
+    let ev = ctl::events_bits(&c);
+    kani::assert((ev & 0x01 != 0) == (pc == S_LD_BREAK && basic_rom), "c10.trap.iff_ld_break_in_basic_rom");
+    kani::assert(ev & !0x01 == 0, "c10.trap.no_other_event");
+    kani::cover!(ev != 0 && m == ZXMachine::Sinclair128K && v1 & 0x20 != 0, "128K, paging locked with BASIC ROM in");
+    kani::cover!(ev == 0 && pc == S_LD_BREAK && m == ZXMachine::Sinclair128K, "128K editor ROM at LD-BREAK address: no trap");
+    kani::cover!(ev != 0 && m == ZXMachine::Sinclair48K, "48K trap");
+}
+
+// ---- through Emulator::emulate_frames ---------------------------------------------------------
+
+use core::time::Duration;
+use rustzx_z80::{Z80Bus, Z80};
+
+/// Replacement for one CPU step: the CPU arrives at LD-BREAK (as after `CP A` at 0x056A or the
+/// `JR NC` at 0x056F), reports the new PC to the bus as `Z80::emulate` does at its end, and a
+/// whole frame's worth of T-states passes so that `emulate_frames` returns after this step.
+fn emulate_arrives_at_ld_break<B: Z80Bus>(cpu: &mut Z80, bus: &mut B) {
+    cpu.regs.set_pc(S_LD_BREAK);
+    bus.wait_internal(70_908);
+    bus.pc_callback(cpu.regs.get_pc());
+}
+
+fn noop_screen_clocks<FB: crate::host::FrameBuffer>(_s: &mut crate::zx::video::screen::ZXScreen<FB>, _clocks: usize) {}
+
+// @harness
+// @prop C10
+// @tier quick
+// @kani_args --no-assertion-reach-checks
+// @timeout 900
+// @fn Emulator::emulate_frames; Emulator::process_fast_load_event; ZXController::pc_callback; ZXController::take_events; fast_load_tap; Emulator::set_fast_load
+// @sym one-block tape (3 arbitrary bytes); LOAD request with arbitrary A', DE in 0..=5, IX = 0x8000; fast loading enabled or disabled (symbolic)
+// @assert through the public frame loop: when the CPU step ends at LD-BREAK with the BASIC ROM paged, emulate_frames performs the fast load in that same step iff fast loading is enabled (tape stopped): registers and memory then equal the LD-BYTES model and the routine has returned; with fast loading disabled nothing is touched and PC stays at LD-BREAK; emulate_frames returns Ok
+// @bound one CPU step, one frame; unwind 9
+// @stub Z80::emulate -> "PC := LD-BREAK, a frame of T-states passes, pc_callback(PC)" (the instruction set is C01's subject); ZXScreen::process_clocks -> no-op
+// @replay solver-only
+#[kani::proof]
+#[kani::unwind(9)]
+#[kani::stub(rustzx_z80::Z80::emulate, emulate_arrives_at_ld_break)]
+#[kani::stub(crate::zx::video::screen::ZXScreen::process_clocks, noop_screen_clocks)]
+fn c10_through_emulate_frames() {
+    let buf = image(&[3]);
+    let mut e = emulator_with_tape(K48, buf);
+    let enabled: bool = kani::any();
+    e.set_fast_load(enabled);
+    let (a_req, de, ret): (u8, u16, u16) = (kani::any(), kani::any(), kani::any());
+    kani::assume(de <= 5);
+    at_trap(&mut e, kani::any(), a_req, S_FLAG_C, 0x8000, de, ret);
+    let mut mem = [0u8; 6];
+    let mut k = 0;
+    while k < 6 {
+        mem[k] = kani::any();
+        emu::controller(&mut e).memory.force_write(0x8000 + k as u16, mem[k]);
+        k += 1;
+    }
+    let before = cpu_view(&mut e);
+    let r = e.emulate_frames(Duration::from_millis(20));
+    kani::assert(r.is_ok(), "c10.frames.ok");
+    let v = cpu_view(&mut e);
+    let o = ld_bytes_model(a_req, S_FLAG_C, 0x8000, de, &buf.data[2..5], &mem);
+    if enabled {
+        kani::assert(v.ix == o.ix && v.de == o.de && (v.af as u8 & S_FLAG_C != 0) == o.carry, "c10.frames.fast_load_performed");
+        kani::assert(v.pc == ret && v.sp == SP0.wrapping_add(2), "c10.frames.returned_to_caller");
+        let mut k = 0;
+        while k < 6 {
+            let addr = 0x8000 + k as u16;
+            kani::assert(e.peek(addr) == model_mem_after(&o, addr, mem[k]), "c10.frames.memory");
+            k += 1;
+        }
+    } else {
+        kani::assert(v == before, "c10.frames.disabled_nothing_touched");
+        kani::assert(e.peek(0x8000) == mem[0] && e.peek(0x8001) == mem[1], "c10.frames.disabled_memory_untouched");
+    }
+    kani::cover!(enabled && o.carry && de == 1, "successful load through the frame loop");
+    kani::cover!(!enabled, "fast loading disabled");
+}
+
+// @harness
+// @prop C10 C15
+// @tier quick
+// @kani_args --no-assertion-reach-checks
+// @timeout 900
+// @fn fast_load_tap; Emulator::process_fast_load_event; Tap::next_block; Tap::next_block_byte; BufferCursor::read; LoadableAsset::read_exact
+// @sym malformed tape images with arbitrary contents: (a) block whose length field (5) exceeds the 2 bytes present, (b) length field 0xFFFF with 3 bytes present, (c) a single stray byte, (d) a well-formed 1-byte block followed by one stray byte; request registers arbitrary (DE 0..=5)
+// @assert never a panic or overflow; a truncated block makes the request fail with Err (reported by emulate_frames) without faking a return to the caller (PC stays at LD-BREAK), and the following request finds no block; stray bytes are not a block: the request is not performed
+// @bound the four images; unwind 9
+// @outside register contents after the Err (AF/AF' are left exchanged, cf. KF-C10-1)
+#[kani::proof]
+#[kani::unwind(9)]
+fn c10_loader_malformed_images() {
+    // (a)
+    let mut buf = image(&[5]);
+    buf.len = 4;
+    let mut e = emulator_with_tape(K48, buf);
+    let de: u16 = kani::any();
+    kani::assume(de <= 5);
+    at_trap(&mut e, kani::any(), kani::any(), S_FLAG_C, 0x8000, de, kani::any());
+    let b = cpu_view(&mut e);
+    let r = emu::fast_load_event(&mut e);
+    let a = cpu_view(&mut e);
+    kani::assert(r.is_err() && undisturbed_except_af(&b, &a), "c10.malformed.truncated_block_is_err_not_success");
+    at_trap(&mut e, kani::any(), kani::any(), S_FLAG_C, 0x8000, de, kani::any());
+    let b = cpu_view(&mut e);
+    let r = emu::fast_load_event(&mut e);
+    let a = cpu_view(&mut e);
+    kani::assert(r.is_ok() && undisturbed_except_af(&b, &a), "c10.malformed.nothing_after_truncated_block");
+    // (b)
+    let mut buf = image(&[3]);
+    buf.data[0] = 0xFF;
+    buf.data[1] = 0xFF;
+    let mut e = emulator_with_tape(K48, buf);
+    at_trap(&mut e, kani::any(), kani::any(), S_FLAG_C, 0x8000, de, kani::any());
+    let b = cpu_view(&mut e);
+    let r = emu::fast_load_event(&mut e);
+    let a = cpu_view(&mut e);
+    kani::assert(r.is_err() && undisturbed_except_af(&b, &a), "c10.malformed.huge_length_field_is_err");
+    // (c)
+    let mut buf = image(&[]);
+    buf.len = 1;
+    let mut e = emulator_with_tape(K48, buf);
+    at_trap(&mut e, kani::any(), kani::any(), S_FLAG_C, 0x8000, de, kani::any());
+    let b = cpu_view(&mut e);
+    let r = emu::fast_load_event(&mut e);
+    let a = cpu_view(&mut e);
+    kani::assert(r.is_ok() && undisturbed_except_af(&b, &a), "c10.malformed.stray_byte_is_no_block");
+    // (d)
+    let mut buf = image(&[1]);
+    buf.len += 1;
+    let mut e = emulator_with_tape(K48, buf);
+    let (o, de1) = request_with(&mut e, &buf, 0, 1, 0x8000, S_FLAG_C | S_FLAG_Z, kani::any(), 5, None);
+    at_trap(&mut e, kani::any(), kani::any(), S_FLAG_C, 0x8000, de, kani::any());
+    let b = cpu_view(&mut e);
+    let r = emu::fast_load_event(&mut e);
+    let a = cpu_view(&mut e);
+    kani::assert(r.is_ok() && undisturbed_except_af(&b, &a), "c10.malformed.stray_byte_after_block_is_no_block");
+    kani::cover!(!o.carry && de1 == 5 && o.nstores == 1, "all four images");
+}
